@@ -237,6 +237,51 @@ func (e *Engine) mapContentWrite(fa *ssa.FieldAddr) string {
 	return ""
 }
 
+// newFuncOnlyCalledFrom: key names a function that is new (not in the baseline, no contract)
+// and every reference to it is a static call inside a listed writer (or inside another such
+// new function): its writes then happen only during a listed writer's execution, which is
+// what the declaration is about (an "extract helper" refactoring of a writer).
+func (e *Engine) newFuncOnlyCalledFrom(key string, writers map[string]bool, depth int) bool {
+	fn := e.funcsByKey[key]
+	if fn == nil || depth > 3 || !e.isNewFunc(fn) {
+		return false
+	}
+	callers := 0
+	for ck, cf := range e.funcsByKey {
+		for _, b := range cf.Blocks {
+			for _, in := range b.Instrs {
+				refs := false
+				var ops []*ssa.Value
+				for _, op := range in.Operands(ops) {
+					if op != nil && *op == ssa.Value(fn) {
+						refs = true
+					}
+				}
+				if !refs {
+					continue
+				}
+				call, isCall := in.(*ssa.Call)
+				if !isCall || call.Call.StaticCallee() != fn {
+					return false // used as a value, deferred or spawned: not a plain helper call
+				}
+				for _, a := range call.Call.Args {
+					if a == ssa.Value(fn) {
+						return false
+					}
+				}
+				callers++
+				if ck == key {
+					return false
+				}
+				if !writers[ck] && !e.newFuncOnlyCalledFrom(ck, writers, depth+1) {
+					return false
+				}
+			}
+		}
+	}
+	return callers > 0
+}
+
 func (e *Engine) analyseMapDecls() {
 	for key, fn := range e.funcsByKey {
 		for _, b := range fn.Blocks {
@@ -264,7 +309,7 @@ func (e *Engine) analyseMapDecls() {
 		}
 		sort.Strings(ks)
 		for _, k := range ks {
-			if !fd.Writers[k] {
+			if !fd.Writers[k] && !e.newFuncOnlyCalledFrom(k, fd.Writers, 0) {
 				fd.Violated = append(fd.Violated, fmt.Sprintf("%s changes the entries of %s.%s (or lets the map escape) at %s", k, fd.Struct, fd.Field, fd.Found[k][0]))
 			}
 		}
@@ -329,7 +374,7 @@ func (e *Engine) analyseWriteSets() {
 		}
 		sort.Strings(ks)
 		for _, k := range ks {
-			if !fd.Writers[k] {
+			if !fd.Writers[k] && !e.newFuncOnlyCalledFrom(k, fd.Writers, 0) {
 				fd.Violated = append(fd.Violated, fmt.Sprintf("%s writes %s.%s at %s", k, fd.Struct, fd.Field, fd.Found[k][0]))
 			}
 		}
